@@ -726,6 +726,7 @@ type c23Stats struct {
 	midChunk, multiLoad, nearGets int
 	playGets, nocacheGets         int
 	invals, resets, lims          int
+	joinedStale                   int // tolerated by the statement, counted: see c23Check
 }
 
 func c23Check(h *c23Hist, loc *time.Location) (viol []string, st c23Stats) {
@@ -827,6 +828,11 @@ func c23Check(h *c23Hist, loc *time.Location) (viol []string, st c23Stats) {
 				if l.Start < inv.Begin && l.Done != 0 && l.Done < inv.Ret {
 					viol = append(viol, fmt.Sprintf("freshness: %s slot %d (time %d) holds rows of load %d (start=%d finish=%d done=%d) although invalidate(%v, step %d) (begin=%d return=%d) completed after that load and before the request began",
 						where, s, t, lid, l.Start, l.Finish, l.Done, inv.Times, inv.Step, inv.Begin, inv.Ret))
+				}
+				if l.Start < inv.Begin && l.Finish < inv.Ret && !(l.Done != 0 && l.Done < inv.Ret) {
+					// the storage call had returned before the invalidation completed, but the cache was not through
+					// with the load yet and the request joined it ("awaits an in-flight load"): not asserted
+					st.joinedStale++
 				}
 				// was there anything stale to avoid? another successful load of this slot that the invalidation outdated
 				if !armed {
@@ -988,6 +994,7 @@ func (a *c23TotalsT) add(s c23Stats) {
 	a.st.loads += s.loads
 	a.st.failedLoads += s.failedLoads
 	a.st.playGets += s.playGets
+	a.st.joinedStale += s.joinedStale
 	a.mu.Unlock()
 }
 
@@ -1182,6 +1189,7 @@ func c23HistSearch(t *testing.T) {
 		ev.Class("n:gets-cancelled", int64(st.cancelled))
 		ev.Class("n:loads", int64(st.loads))
 		ev.Class("n:loads-failed", int64(st.failedLoads))
+		ev.Class("n:tolerated-slots-joined-a-load-read-before-the-invalidation", int64(st.joinedStale))
 		ev.Class(fmt.Sprintf("gomaxprocs=%d", runtime.GOMAXPROCS(0)), 1)
 		ev.Extra("gomaxprocs", runtime.GOMAXPROCS(0))
 	})
